@@ -234,15 +234,21 @@ class WireView:
                 w0 = op["what"]
                 if w0.get("t") in ("HEADERS", "DATA") and w0.get("eos"):
                     eos_fed.add(w0.get("sid"))
+                if w0.get("t") == "PUSH_PROMISE":
+                    eos_written.add(w0.get("promised"))   # the client never sends on a pushed stream
                 if w0.get("t") == "GOAWAY" or "chaos" in w0:
                     conn_over = True
             for f0 in st["out"]:
+                if f0["t"] == "PUSH_PROMISE":
+                    eos_fed.add(f0.get("promised"))      # a pushed stream is closed on the peer's side from the start
                 if f0["t"] in ("HEADERS", "PUSH_PROMISE"):
                     head_out.add(f0["sid"] if f0["t"] == "HEADERS" else f0.get("promised"))
                 if f0["t"] in ("HEADERS", "DATA") and f0.get("eos"):
                     eos_written.add(f0["sid"])
                 if f0["t"] == "GOAWAY":
                     conn_over = True
+            if (prev_snap or {}).get("conn", {}).get("conn_error") or (st.get("snap") or {}).get("conn", {}).get("conn_error"):
+                conn_over = True          # a connection error is recorded although its GOAWAY may still be unwritten
             if o in ("eof", "read_fail", "drop_conn", "abrupt_shutdown") or (o == "write_mode" and op.get("mode") in ("fail", "zero")):
                 other_error = True
             if o in ("conn_poll", "poll_accept") and isinstance(res, str) and res.startswith("E("):
@@ -266,6 +272,9 @@ class WireView:
             if o == "peer" and isinstance(op.get("what"), dict):
                 w = op["what"]
                 sid = w.get("sid", 0) or 0
+                if w.get("t") == "PUSH_PROMISE" and w.get("promised"):
+                    # the promise is the first peer frame of the promised stream (it may be answered by a refusal)
+                    peer_frames_on[w["promised"]] = peer_frames_on.get(w["promised"], 0) + 1
                 if sid:
                     peer_frames_on[sid] = peer_frames_on.get(sid, 0) + 1
                     if sid in out_rst:
@@ -289,7 +298,10 @@ class WireView:
                     v.append({"step": st["i"], "why": "a handle reports a remote reset but the peer never reset this stream", "sid": sid, "api": res})
             if o in ("poll_reset", "respond_poll_reset") and isinstance(res, dict) and "reason" in res and op.get("h") in handles:
                 sid = handles[op["h"]]
-                if sid in peer_rst and sid not in tainted and sid not in explicit and res["reason"] != peer_rst[sid] and sid not in out_rst:
+                # a connection error (for instance the reset quota answered with GOAWAY ENHANCE_YOUR_CALM while this very
+                # RST_STREAM was processed) reaches every open stream and then is the error the stream reports
+                if sid in peer_rst and sid not in tainted and sid not in explicit and res["reason"] != peer_rst[sid] and sid not in out_rst \
+                        and not conn_over:
                     v.append({"step": st["i"], "why": "poll_reset reports a code different from the peer's RST_STREAM", "sid": sid, "wire": peer_rst[sid], "api": res})
             for f in st["out"]:
                 if f["t"] == "RST_STREAM":
@@ -297,7 +309,12 @@ class WireView:
             if "snap" in st:
                 prev_snap = st["snap"]
         if self.sc.get("settled") and not conn_over:
+            # a stream still waiting for a concurrency slot keeps its HEADERS queued and sends the RST_STREAM right after
+            # them once it is opened: nothing is owed while it waits
+            waiting = {x["id"] for x in (prev_snap or {}).get("streams", []) if x.get("is_pending_open") or x.get("is_pending_push")}
             for sid, (step, code) in must_rst.items():
+                if sid in waiting or not prev_snap:
+                    continue
                 # a final frame that had already been handed to the codec when the call was made still goes out and ends the
                 # stream cleanly: then no RST_STREAM is owed
                 if sid not in out_rst and sid not in peer_rst and not (sid in eos_written and sid in eos_fed):
@@ -328,9 +345,56 @@ class WireView:
         data_done = set()
         handles = {}
         eos_out, eos_in, rst = set(), set(), set()
+        # tasks parked by a poll that returned Pending: waker id -> (step, op); a task leaves the table when its waker
+        # fires, when it is polled again, or when its handle is dropped
+        KIND = {"poll_response": 0, "poll_pushed_response": 0, "poll_data": 1, "poll_trailers": 2, "poll_capacity": 3,
+                "poll_reset": 4, "respond_poll_reset": 4, "poll_push": 5, "poll_informational": 6}
+        parked = {}
+
+        def waker_of(op_):
+            o_ = op_.get("op")
+            if o_ == "poll_ready":
+                return 2 + 1000 * int(op_.get("sr", 0))
+            if o_ == "poll_pong":
+                return 3
+            if o_ in KIND and op_.get("h") is not None:
+                return 100 + 8 * int(op_["h"]) + KIND[o_]
+            return None
         for st in self.sc["trace"]:
             op, res = st["op"], st["res"]
             o = op.get("op")
+            for wid in st.get("wakes") or []:
+                parked.pop(wid, None)
+            wid = waker_of(op)
+            if wid is not None and wid >= 100:
+                # one task per slot: whatever that task polls next in the slot supersedes what it was parked on
+                base, k = 100 + 8 * ((wid - 100) // 8), (wid - 100) % 8
+                for k2 in {0: (0, 1, 2, 6), 1: (0, 1, 2, 6), 2: (0, 1, 2, 6), 6: (0, 1, 2, 6), 3: (3, 4), 4: (3, 4), 5: (5,)}.get(k, (k,)):
+                    parked.pop(base + k2, None)
+            if o in ("send_data", "send_trailers", "send_reset", "respond_reset", "send_response") and op.get("h") is not None:
+                # the task that owns the send half acted on it: it is not parked any more
+                parked.pop(100 + 8 * int(op["h"]) + 3, None)
+                parked.pop(100 + 8 * int(op["h"]) + 4, None)
+            if wid is not None:
+                if res == "Pending":
+                    # h2 keeps ONE waker per stream and direction (recv_task: response / body / trailers / interim
+                    # responses; send_task: capacity / reset): the documented usage is one task per slot, so a later
+                    # registration in the same slot replaces the earlier one, which is then not owed a wake-up
+                    if wid >= 100:
+                        base, k = 100 + 8 * ((wid - 100) // 8), (wid - 100) % 8
+                        same = {0: (0, 1, 2, 6), 1: (0, 1, 2, 6), 2: (0, 1, 2, 6), 6: (0, 1, 2, 6), 3: (3, 4), 4: (3, 4), 5: (5,)}.get(k, (k,))
+                        for k2 in same:
+                            parked.pop(base + k2, None)
+                    parked[wid] = (st["i"], op)
+                else:
+                    parked.pop(wid, None)
+            if o and o.startswith("drop_") and op.get("h") is not None:
+                for k in range(8):
+                    parked.pop(100 + 8 * int(op["h"]) + k, None)
+            if o == "drop_sr":
+                parked.pop(2 + 1000 * int(op.get("sr", 0)), None)
+            if o == "drop_ping_pong":
+                parked.pop(3, None)
             if isinstance(res, dict) and "sid" in res and "h" in res:
                 handles[res["h"]] = res["sid"]
                 if o == "send_request" and op.get("eos"):
@@ -372,6 +436,25 @@ class WireView:
                 clean = sid in eos_out and sid in eos_in and sid not in rst
                 cls = "reset-wait-on-cleanly-closed-stream" if (o in ("poll_reset", "respond_poll_reset") and clean) else "pending-after-end"
                 v.append({"step": st["i"], "why": "operation still Pending after the connection ended", "class": cls, "op": op, "connection_ended_at": done_at})
+        # a task that was told to wait BEFORE the connection ended must be woken by the ending (it then finds the error or
+        # the end): judged once the connection object is gone and the run was driven to quiescence
+        if done_at is not None and self.sc.get("settled"):
+            for wid, (step, op_) in sorted(parked.items()):
+                if step >= done_at:
+                    continue              # parked after the end: already reported above as pending-after-end
+                o_ = op_.get("op")
+                if o_ == "poll_trailers" and op_.get("h") not in data_done:
+                    continue
+                sid = handles.get(op_.get("h"))
+                clean = sid in eos_out and sid in eos_in and sid not in rst
+                if o_ in ("poll_reset", "respond_poll_reset") and clean:
+                    cls = "reset-wait-on-cleanly-closed-stream"
+                elif clean and wid >= 100:
+                    continue              # the stream had completed before the connection ended: the ending owes it nothing
+                else:
+                    cls = "waiter-not-woken-by-connection-end"
+                v.append({"step": step, "why": "a task parked before the connection ended was never woken by the ending", "class": cls, "op": op_,
+                          "waker": wid, "connection_ended_at": done_at})
         return v, done_at
 
 
